@@ -16,13 +16,6 @@ Local Open Scope nat_scope.
 
 (* ---------- accessors ---------- *)
 
-Lemma nth_error_upd_same {A} (l : list A) i f x :
-  nth_error l i = Some x -> nth_error (upd l i f) i = Some (f x).
-Proof. intros H. rewrite nth_error_upd, Nat.eqb_refl, H. reflexivity. Qed.
-
-Lemma nth_error_upd_other {A} (l : list A) i j f : j <> i -> nth_error (upd l i f) j = nth_error l j.
-Proof. intros H. rewrite nth_error_upd. destruct (Nat.eqb_spec j i); [contradiction|reflexivity]. Qed.
-
 Lemma get_group_put_same st g gr gr0 : get_group st g = Some gr0 -> get_group (put_group st g gr) g = Some gr.
 Proof. unfold get_group, put_group; simpl. intros H. rewrite (nth_error_upd_same _ _ _ _ H). reflexivity. Qed.
 
